@@ -80,6 +80,12 @@ def install():
             "ret": None,
             "exc": None,
         }
+        try:
+            # centre the trial point was generated from (pure read); the
+            # rounding of x_best + step is relative to |x_best|
+            rec["x_best"] = np.array(c.tr.x_best, dtype=float, copy=True)
+        except AttributeError:
+            rec["x_best"] = None
         c.evals.append(rec)
         c.emit("eval.pre", pb=self, rec=rec)
         try:
